@@ -90,6 +90,10 @@ Fixpoint fetch_leaves (ls : list (N * bool * bool)) (acc : list N) (w : world) :
   end.
 Definition sd_fetch (d : sd) (w : world) : world * (list N + pkind) := fetch_leaves (sd_leaves d) [] w.
 
+(* World::exec: set the type up, fetch it, hand the value to the closure (which may panic); the value is
+   dropped when the closure returns or unwinds *)
+Definition sd_exec (dflt : N -> value) (d : sd) (w : world) : world * (list N + pkind) := sd_fetch d (sd_setup dflt d w).
+
 (* what the harness observes: borrow class of the cell of every type of a universe *)
 Definition classes (w : world) (univ : list N) : list (option N) :=
   map (fun ty => option_map (fun c => borrow_class (c_b c)) (lookup (ty, 0) (cells w))) univ.
